@@ -40,7 +40,7 @@ type World struct {
 	Opt   *NoKV.Options
 	step  int
 	// ModeC: client operations run as tasks and commit-worker sites park.
-	ModeC bool
+	ModeC   bool
 	usedART bool
 }
 
@@ -391,19 +391,19 @@ func GenL0Layout(r *sim.Rand, nkeys int, cf int64) []sim.Op {
 // GenCfg draws the configuration swarm shared by the E1 properties.
 func GenCfg(r *sim.Rand) map[string]int64 {
 	return map[string]int64{
-		"memtable_size":   r.Pick64(512, 1024, 2048, 4096, 1<<20),
-		"memtable_art":    int64(r.Intn(2)),
-		"value_threshold": r.Pick64(32, 64, 64, 1<<20),
-		"vlog_file_size":  r.Pick64(1024, 4096, 1<<16),
-		"vlog_buckets":    r.Pick64(1, 2, 4),
-		"block_cache":     r.Pick64(0, 1, 64),
-		"bloom_cache":     r.Pick64(0, 1, 64),
-		"l0_tables":       r.Pick64(2, 4, 16),
-		"ingest_batch":    r.Pick64(1, 4),
+		"memtable_size":    r.Pick64(512, 1024, 2048, 4096, 1<<20),
+		"memtable_art":     int64(r.Intn(2)),
+		"value_threshold":  r.Pick64(32, 64, 64, 1<<20),
+		"vlog_file_size":   r.Pick64(1024, 4096, 1<<16),
+		"vlog_buckets":     r.Pick64(1, 2, 4),
+		"block_cache":      r.Pick64(0, 64, 4096, 4096),
+		"bloom_cache":      r.Pick64(0, 1, 64),
+		"l0_tables":        r.Pick64(2, 4, 16),
+		"ingest_batch":     r.Pick64(1, 4),
 		"manifest_rewrite": r.Pick64(256, 2048, 64<<20),
-		"batch_wait_us":   r.Pick64(0, 200),
-		"arena_size":      r.Pick64(1<<20, 1<<20, 1<<20, 1<<20, 1<<20, 1<<20, 1<<20, 1<<20, 1<<20, 2<<20, 0),
-		"hot_routing":     r.Pick64(0, 0, 1),
+		"batch_wait_us":    r.Pick64(0, 200),
+		"arena_size":       r.Pick64(1<<20, 1<<20, 1<<20, 1<<20, 1<<20, 1<<20, 1<<20, 1<<20, 1<<20, 2<<20, 0),
+		"hot_routing":      r.Pick64(0, 0, 1),
 	}
 }
 
